@@ -29,10 +29,10 @@ type StmtSite struct {
 	Exec    ssa.CallInstruction // the call that executes the statement
 	Prepare ssa.CallInstruction // the Prepare call for prepared statements (else nil)
 	SQL     *SQLStmt
-	Args    []ssa.Value // bound parameters when passed as a literal variadic list; nil when dynamic
+	Args    []ssa.Value   // bound parameters when passed as a literal variadic list; nil when dynamic
 	ArgsFn  *ssa.Function // the function the Args values live in (the caller, when a helper forwards its own variadic list)
-	Dynamic bool        // parameters passed as a run-time built slice
-	OnTx    bool        // executed on a transaction (or a statement prepared on one)
+	Dynamic bool          // parameters passed as a run-time built slice
+	OnTx    bool          // executed on a transaction (or a statement prepared on one)
 	Scan    ssa.CallInstruction
 	Dests   []ssa.Value // Scan destinations
 }
